@@ -144,6 +144,12 @@ class Prev:
         return out
 
 
+def _inv_of(node):
+    if node.kind == 'file':
+        return 'F:' + str(node.path)
+    return 'S:%s:%s' % (node.fname, canon_text([node.args, node.kwargs]))
+
+
 class ModelBuild:
     def record_implies_duplicate(self, key):
         for r in self.prev.forest:
@@ -153,6 +159,7 @@ class ModelBuild:
                         if m is n or m.setup_failed:
                             continue
                         if (m.key in self.claimed_subs) if m.kind == 'sub' else (m.path in self.claimed_files):
+                            self.implied_hits.append((_inv_of(n), _inv_of(m)))
                             return True
         return False
 
@@ -181,6 +188,7 @@ class ModelBuild:
         # races only (C08): a call whose reusable record contains a key that a concurrent task has claimed in the
         # meantime may itself be rejected ("implied because a cached subtree containing it is being reused")
         self.implied_dup = False
+        self.implied_hits = []       # (request that was rejected, claimed key inside its record) as invocation ids
         self.outputs = set()
         self.failed_outputs = set()
         self.created = set()
